@@ -97,7 +97,7 @@ func c12Message(mid string) *fbb.Message {
 
 func runC12(ctx *Ctx) error {
 	r, res := ctx.Rng, ctx.Res
-	res.Rule = "every fourth stored message also carries the mailbox-private header names X-FilePath (pointing outside the mailbox), X-Unread and X-P2POnly as a remote station could set them; cases: MID byte strings (separators, dot-dot segments, absolute, empty, 1..300 bytes, non-ASCII, NUL, backslash, plus ordinary MIDs) x {ProcessInbound, GetInboundAnswer, SetSent/SetDeferred, AddOut} on a DirHandler inside a sandbox tree with decoy files around the mailbox; recursive snapshots before/after give the touched paths. Compared with the model's touched paths; oracle: every touched path is inside the mailbox directory. Non-trivial: MID containing a separator, a dot segment, NUL or non-ASCII; distinct by (op, MID)."
+	res.Rule = "every fourth stored message also carries the mailbox-private header names X-FilePath (pointing outside the mailbox), X-Unread and X-P2POnly as a remote station could set them; cases: MID byte strings (separators, dot-dot segments, absolute, empty, 1..300 bytes, non-ASCII, NUL, backslash, plus ordinary MIDs) x {ProcessInbound, GetInboundAnswer, SetSent/SetDeferred, AddOut} on a DirHandler inside a sandbox tree with decoy files around the mailbox and the process's TMPDIR pointing into the sandbox (outside the mailbox); recursive snapshots before/after give the touched paths. Compared with the model's touched paths; oracle: every touched path is inside the mailbox directory. Non-trivial: MID containing a separator, a dot segment, NUL or non-ASCII; distinct by (op, MID)."
 	root, err := os.MkdirTemp("", "verif-c12-")
 	if err != nil {
 		return err
@@ -156,6 +156,17 @@ func runC12(ctx *Ctx) error {
 			if op == 2 { // SetSent needs the message in the outbox
 				h.AddOut(c12Message(mid))
 			}
+			// the process's temporary directory lies inside the sandbox (and outside the mailbox), with
+			// decoys under the names a careless implementation would stage the message under: staging
+			// a file elsewhere than in the mailbox is touching a file outside it
+			tmpdir := filepath.Join(sb, "tmpdir")
+			os.MkdirAll(tmpdir, 0o755)
+			oldTmp, hadTmp := os.LookupEnv("TMPDIR")
+			os.Setenv("TMPDIR", tmpdir)
+			if !strings.ContainsAny(mid, "/\x00") && mid != "" && mid != "." && mid != ".." && len(mid) < 250 {
+				os.WriteFile(filepath.Join(tmpdir, mid+mailbox.Ext), []byte("decoy"), 0o644)
+				os.WriteFile(filepath.Join(tmpdir, "."+mid+mailbox.Ext+".tmp"), []byte("decoy"), 0o644)
+			}
 			old := time.Now().Add(-time.Hour)
 			filepath.Walk(sb, func(p string, info os.FileInfo, err error) error { os.Chtimes(p, old, old); return nil })
 			before := snapshot(sb)
@@ -186,9 +197,18 @@ func runC12(ctx *Ctx) error {
 				}
 			}
 			after := snapshot(sb)
+			if hadTmp {
+				os.Setenv("TMPDIR", oldTmp)
+			} else {
+				os.Unsetenv("TMPDIR")
+			}
 			touched := snapDiff(before, after)
 			rel, _ := filepath.Rel(sb, mbox)
 			var outside []string
+			if fi, err := os.Stat(tmpdir); err != nil || !fi.ModTime().Equal(old) {
+				// a file was created or removed in the temporary directory, even if nothing is left
+				outside = append(outside, "tmpdir/ (directory modified)")
+			}
 			for _, t := range touched {
 				if !strings.HasPrefix(t, rel+"/") {
 					outside = append(outside, t)
